@@ -230,7 +230,7 @@ func c20SchedCase(t *rapid.T, rec *ev.Recorder, opsPerClient int) {
 		}
 		if len(calls) == 0 {
 			if n := len(r.inFlight()); n > 0 {
-				t.Fatalf("HARNESS-GAP: %d operations neither finished nor parked (deadlock)\n%s", n, r.explain())
+				t.Fatalf("HARNESS-GAP: %d operations neither finished nor parked (deadlock)\n%s\n%s", n, r.sched.DebugState(), r.explain())
 			}
 			break
 		}
